@@ -118,8 +118,9 @@ def build(spec):
     targets = list(RELOC_MENUS[rel])
     words = {}
     for k, t in enumerate(REL_TARGETS_P1 + REL_TARGETS_P2):
-        # pointer-looking values; the last one makes base+delta wrap around 2^32 for a negative delta check
-        val = (base + 0x1000 + 0x10 * k) & 0xFFFFFFFF
+        # two pointer-looking values, one small value that goes below zero with the negative delta and one
+        # large value that goes beyond 2^32 with the positive delta (HIGHLOW arithmetic is modulo 2^32)
+        val = ((base + 0x1000) & 0xFFFFFFFF, 0x00000800, 0xFFFFF000, (base + 0x1030) & 0xFFFFFFFF)[k]
         words[t] = val
         dirs_data[t:t + 4] = val.to_bytes(4, "little")
     if hdr == 3:
